@@ -11,14 +11,19 @@ import modelgen as mg
 
 ID = "C20"
 CASE_TIMEOUT = 90
-SMOOTH = ["exp", "log", "ln", "sqrt", "sin", "cos", "atan", "tan", "pow", "sci", "pi", "t", "time", "unary", "intquot", "ContinuousConditional", "Gt", "Lt", "Ge", "Le"]
+SMOOTH = ["exp", "log", "ln", "sqrt", "sin", "cos", "atan", "tan", "pow", "sci", "t", "time", "unary", "intquot", "ContinuousConditional", "Gt", "Lt", "Ge", "Le"]
 RULE = """(a) Chain models: x' = i_d, i_k = 0.9*i_(k-1) + 0.1*y (+ a diamond every 5th link), depth d = 1..40 (quick: 1..40, every depth), with 2
 states; (b) modelgen models (1-4 states, 0-4 parameters, 0-8 intermediates in chain / diamond / random shapes; smooth functions, powers,
 ContinuousConditional; every 3rd model also Conditional / abs / floor / Mod).  For each model: states_matrix(ode) must list the state
 symbols in the order of the generated state_index table; rhs_matrix(ode) must be produced (any acyclic depth), contain no intermediate
-symbol, and - evaluated with sympy at 3 points - equal the generated NumPy rhs entry by entry (rtol 1e-9); jacobi_matrix(ode) must be
-produced and equal the central finite differences of the generated rhs (two step sizes 1e-5 and 5e-6 relative; entries where the two
-estimates disagree, e.g. next to a discontinuity, are skipped; rtol 1e-5 plus 1e-7 of the row scale).  One case = one (model, check, point).
+symbol, and - evaluated with sympy at 3 points - equal the generated NumPy rhs entry by entry (rtol 1e-9, atol 1e-12 x (1 + largest
+magnitude)); jacobi_matrix(ode) must be produced and equal the finite differences of the generated rhs WITH AN ERROR ESTIMATE: central
+differences D(h), D(h/2) with h = 1e-4 (1 + |x_j|), Richardson value FD = (4 D(h/2) - D(h))/3; an entry is accepted when
+|J - FD| <= 1e-6 (1 + |J|) + 50 |D(h) - D(h/2)| + rounding (8 eps max|f| / h) and skipped when the two estimates disagree by more than 1e-3
+relative (next to a discontinuity).  General models do not use `pi` in expressions at all (parameter values like 2*pi stay): the known sympy
+problem (rhs_matrix substitutes the intermediates and re-evaluates sin/cos/tan of a sum that now contains pi, dropping terms) is exercised by
+the dedicated PI_TRIG models; a mismatch of a model in which pi reaches a trigonometric argument (directly or through the intermediates
+mentioned there) is reported as C20:rhs-matrix-differs:trig-of-unevaluated-sum-with-pi.  One case = one (model, check, point).
 Models whose NumPy module cannot be generated are skipped.  Non-trivial: the model has >= 1 intermediate; distinct by sha1(text, check,
 point)."""
 
@@ -34,13 +39,26 @@ def chain_text(d, diamond=True):
     return "\n".join(lines) + "\n"
 
 
+# dedicated models of the KNOWN sympy problem: (intermediate, rate expression); pi reaches a trigonometric argument directly or through
+# the substituted intermediate
+PI_TRIG = [("2 - pi + x", "cos(i1)"), ("a*x + 2 - pi + b", "sin(i1)"), ("2 - pi + x", "tan(0.1*y) + cos(i1)"), ("x + pi", "cos(i1 + y)"), ("pi - x", "cos(i1 + y + 2)"), ("x + y + pi", "sin(i1)"),
+           ("a*x + b", "sin(i1 + pi + y)"), ("a*x + b", "cos(2 - pi + i1)"), ("a*x + b", "cos(pi*i1)"), ("a*x + b", "sin(2*pi*t + i1)"), ("pi", "cos(x + i1 + y)"), ("pi/2", "sin(x + i1 + y)")]
+NO_PI = [f for f in mg.ALL_FEATURES if f != "pi"]
+
+
+def pi_text(i1, e):
+    return f"parameters(a=0.9, b=0.1)\nstates(x=0.5, y=-0.25)\ni1 = {i1}\ndx_dt = {e} - x\ndy_dt = x - y*a\n"
+
+
 def cases(tier, seed, focus):
+    for i1, e in PI_TRIG:
+        yield {"ode": pi_text(i1, e), "npts": 2, "tags": ["C20:rhs-matrix-differs:trig-of-unevaluated-sum-with-pi", "C20:jacobian-differs"]}
     for d in range(1, 41):
         yield {"ode": chain_text(d), "npts": 2, "depth": d, "tags": ["C20:rhs-matrix-raises", "C20:jacobian-raises"]}
     n = 150 if tier == "quick" else 1500
     for i in range(n):
         k = seed * 100003 + i
-        yield {"mseed": k, "opts": {"features": SMOOTH if i % 3 else None, "n_states": [1, 4], "n_params": [0, 4], "n_inter": [0, 8], "depth": 2, "annotations": False}, "npts": 3, "tags": ["C20"]}
+        yield {"mseed": k, "opts": {"features": SMOOTH if i % 3 else NO_PI, "n_states": [1, 4], "n_params": [0, 4], "n_inter": [0, 8], "depth": 2, "annotations": False}, "npts": 3, "tags": ["C20"]}
     if tier == "thorough":
         for d in range(41, 81, 3):
             yield {"ode": chain_text(d), "npts": 1, "depth": d, "tags": ["C20:rhs-matrix-raises"]}
@@ -139,9 +157,11 @@ def check(case):
         except Exception as e:  # noqa: BLE001
             cm.note(res, f"skipped:sympy-evaluation-fails:{cm.exc_name(e)}")
             continue
-        bad = {order[i]: vals[i] for i in range(len(order)) if not cm.close(vals[i], f0[i], 1e-9, 1e-12)}
+        scale = float(np.max(np.abs(s))) if len(s) else 0.0
+        bad = {order[i]: vals[i] for i in range(len(order)) if not cm.vclose(vals[i], f0[i], scale)}
+        terr = ":trig-of-unevaluated-sum-with-pi" if ref.pi_reaches_trig() else ""
         if bad:
-            add("rhs-matrix-differs", f"rhs_matrix evaluated at a point differs from the generated rhs for {sorted(bad)}", [pt], {k: float(f0[order.index(k)]) for k in bad}, bad)
+            add("rhs-matrix-differs" + terr, f"rhs_matrix evaluated at a point differs from the generated rhs for {sorted(bad)}", [pt], {k: float(f0[order.index(k)]) for k in bad}, bad)
             continue
         if jm is None:
             continue
@@ -157,23 +177,39 @@ def check(case):
         except Exception as e:  # noqa: BLE001
             cm.note(res, f"skipped:sympy-evaluation-fails:{cm.exc_name(e)}")
             continue
-        fd = []
-        for rel in (1e-5, 5e-6):
-            Jh = np.zeros_like(J)
-            for j in range(len(order)):
-                h = rel * (1 + abs(s[j]))
-                sp, sm_ = s.copy(), s.copy()
-                sp[j] += h
-                sm_[j] -= h
-                Jh[:, j] = (m.raw("rhs", sp, pt["t"], p) - m.raw("rhs", sm_, pt["t"], p)) / (2 * h)
-            fd.append(Jh)
-        scale = np.abs(fd[1]).max(axis=1, keepdims=True) + np.abs(f0).reshape(-1, 1) + 1e-12
-        reliable = np.abs(fd[0] - fd[1]) <= 1e-6 * (np.abs(fd[1]) + scale)
-        badj = [(order[i], order[j], float(J[i, j]), float(fd[1][i, j])) for i in range(len(order)) for j in range(len(order))
-                if reliable[i, j] and np.isfinite(fd[1][i, j]) and abs(J[i, j] - fd[1][i, j]) > 1e-5 * abs(fd[1][i, j]) + 1e-7 * scale[i, 0]]
+        # finite differences with an error estimate: D(h), D(h/2), Richardson extrapolation
+        n = len(order)
+        D = []
+        fmax = np.abs(f0).reshape(-1, 1) * np.ones((1, n))
+        hs = np.array([1e-4 * (1 + abs(s[j])) for j in range(n)])
+        try:
+            for fac in (1.0, 0.5):
+                Jh = np.zeros_like(J)
+                for j in range(n):
+                    h = fac * hs[j]
+                    sp, sm_ = s.copy(), s.copy()
+                    sp[j] += h
+                    sm_[j] -= h
+                    fp, fm = m.raw("rhs", sp, pt["t"], p), m.raw("rhs", sm_, pt["t"], p)
+                    Jh[:, j] = (fp - fm) / (2 * h)
+                    fmax[:, j] = np.maximum(fmax[:, j], np.maximum(np.abs(fp), np.abs(fm)))
+                D.append(Jh)
+        except be.Stage:
+            cm.note(res, "skipped:rhs-raises-next-to-the-point")
+            continue
+        FD = (4 * D[1] - D[0]) / 3
+        est = np.abs(D[0] - D[1])
+        rounding = 8 * 2.2e-16 * fmax / (0.5 * hs.reshape(1, -1))
+        with np.errstate(all="ignore"):
+            unreliable = ~np.isfinite(FD) | (est > 1e-3 * np.maximum(np.abs(D[0]), np.abs(D[1])) + 1e-7)
+            tol = 1e-6 * (1 + np.abs(J)) + 50 * est + rounding
+            wrong = ~unreliable & (np.abs(J - FD) > tol)
+        if np.any(unreliable):
+            cm.note(res, "jacobian-entries-skipped:finite-differences-unreliable", int(np.sum(unreliable)))
+        badj = [(order[i], order[j], float(J[i, j]), float(FD[i, j]), float(tol[i, j])) for i in range(n) for j in range(n) if wrong[i, j]]
         if badj:
-            add("jacobian-differs", f"jacobi_matrix entries differ from central finite differences of the generated rhs: d(d{badj[0][0]}_dt)/d{badj[0][1]}", [pt], [b[3] for b in badj[:4]], [b[2] for b in badj[:4]],
-                str([(b[0], b[1]) for b in badj[:4]]))
+            add("jacobian-differs" + terr, f"jacobi_matrix entries differ from (Richardson) finite differences of the generated rhs: d(d{badj[0][0]}_dt)/d{badj[0][1]}", [pt], [b[3] for b in badj[:4]], [b[2] for b in badj[:4]],
+                str([(b[0], b[1], f"tol={b[4]:.3g}") for b in badj[:4]]))
     m.close()
     return res
 
